@@ -99,6 +99,39 @@ class Shard(object):
             json.dump(out, f, default=repr)
 
 
+def _start_anchor_coverage(files):
+    """Informational only: which lines of the property's anchored files the workload reached.
+    Uses the coverage package of the repository's interpreter when present (sys.monitoring core)."""
+    if not files or os.environ.get("VERIF_ANCHOR_COVERAGE", "1") == "0":
+        return None
+    try:
+        os.environ.setdefault("COVERAGE_CORE", "sysmon")
+        import coverage
+
+        cov = coverage.Coverage(data_file=None, include=list(files), branch=False, config_file=False)
+        cov.start()
+        return cov
+    except Exception:
+        return None
+
+
+def _stop_anchor_coverage(cov, sh, files):
+    if cov is None:
+        return
+    try:
+        cov.stop()
+        out = {}
+        for f in files:
+            try:
+                _, statements, _, missing, _ = cov.analysis2(f)
+            except Exception:
+                continue
+            out[f] = {"statements": list(statements), "missing": list(missing)}
+        sh.note("anchor_coverage", out)
+    except Exception:
+        pass
+
+
 def load_check(prop):
     return importlib.import_module("rv.checks.%s" % prop.lower())
 
@@ -112,6 +145,7 @@ def main(argv):
     faulthandler.dump_traceback_later(watchdog, exit=True)
     sh = Shard(prop, spec["_tier"], spec["_seed"], spec.get("_index", 0))
     mod = load_check(prop)
+    cov = _start_anchor_coverage(spec.get("_anchor_files"))
     t0 = time.perf_counter()
     try:
         if "_replay" in spec:
@@ -121,6 +155,7 @@ def main(argv):
     except BaseException:
         # a crash of the harness itself is never a verdict about the code
         sh.inconclusive_because("harness error: " + traceback.format_exc()[-1800:])
+    _stop_anchor_coverage(cov, sh, spec.get("_anchor_files"))
     sh.note("wall_s", time.perf_counter() - t0)
     sh.dump(out_path)
     faulthandler.cancel_dump_traceback_later()
